@@ -1,4 +1,5 @@
 //! Generators: program IR, pretty-printer with layout knobs and site map, tape decoders.
 pub mod build;
+pub mod inject;
 pub mod ir;
 pub mod print;
